@@ -89,6 +89,23 @@ func (i *Inflight) GetAll(immediate bool) []packets.Packet {
 	return m
 }
 
+// holdExpiry encodes the expiry time of a message which is held back by flow control: the stored
+// value is negative (the marker GetAll(true) looks for) and -1 when the message never expires.
+func holdExpiry(expiry int64) int64 {
+	if expiry < 0 {
+		return expiry
+	}
+	return -1 - expiry
+}
+
+// heldExpiry returns the expiry time of a stored message, whether it is held back or not.
+func heldExpiry(expiry int64) int64 {
+	if expiry < 0 {
+		return -1 - expiry
+	}
+	return expiry
+}
+
 // NextImmediate returns the next inflight packet which is indicated to be sent immediately.
 // This typically occurs when the quota has been exhausted, and we need to wait until new quota
 // is free to continue sending.
